@@ -15,6 +15,7 @@ use std::collections::HashMap;
 pub enum Ident {
     Dyadic(i64, u32), // m / 2^e
     Cos(u64, u64),    // cos(2 pi a/b), gcd(a,b)=1, 0 <= a/b <= 1/2
+    Float(u64),       // any other finite f64 (bit pattern): it IS a dyadic rational m * 2^e, and is mapped to exactly that
 }
 
 #[derive(Debug)]
@@ -90,16 +91,23 @@ pub fn identify(v: f64, bmax: u64) -> Result<Ident, FieldErr> {
         }
     }
     if v.abs() > 1.0 + TOL_ACCEPT {
-        return Err(FieldErr::Unidentified(v));
+        return Ok(Ident::Float(v.to_bits()));
     }
     let two_pi = 2.0 * std::f64::consts::PI;
     let lo = ((v + TOL_STEER).min(1.0)).acos() / two_pi;
     let hi = ((v - TOL_STEER).max(-1.0)).acos() / two_pi;
-    let (a, b) = simplest_in(lo, hi, bmax).ok_or(FieldErr::Unidentified(v))?;
+    // A constant that is not the cosine of any rational angle with denominator <= bmax is not a twiddle factor.  It is
+    // still an exact number (every f64 is m * 2^e) and the homomorphism Z[1/2] -> GF(p) maps it exactly: the transform is then
+    // evaluated with precisely the constant the library asked for.  If the library's algebra needs the constant to be, say,
+    // 1/36 exactly, the f64 nearest to 1/36 makes the exact result differ from the DFT - which is what C14 is about.
+    let (a, b) = match simplest_in(lo, hi, bmax) {
+        Some(x) => x,
+        None => return Ok(Ident::Float(v.to_bits())),
+    };
     // accept only if the exact cosine matches
     let exact = refdft::twiddle(a, b).re.to_f64();
     if (exact - v).abs() > TOL_ACCEPT {
-        return Err(FieldErr::Unidentified(v));
+        return Ok(Ident::Float(v.to_bits()));
     }
     // unambiguous? any other fraction with denominator <= bmax differs by >= 1/(b*bmax)
     if (hi - lo) >= 1.0 / (b as f64 * bmax as f64) {
@@ -208,6 +216,17 @@ impl Field {
                     mulmod(mm, invmod(powmod(2, e as u64, p), p), p)
                 }
                 Ident::Cos(a, b) => f.c(a * (big_n / b)),
+                Ident::Float(fb) => {
+                    // v = (-1)^s * m * 2^e with m < 2^53
+                    let sign = fb >> 63;
+                    let ebits = ((fb >> 52) & 0x7ff) as i64;
+                    let frac = fb & ((1u64 << 52) - 1);
+                    let (m, e) = if ebits == 0 { (frac, -1074i64) } else { (frac | (1u64 << 52), ebits - 1075) };
+                    let mm = m % p;
+                    let pow = if e >= 0 { powmod(2, e as u64, p) } else { invmod(powmod(2, (-e) as u64, p), p) };
+                    let val = mulmod(mm, pow, p);
+                    if sign == 1 { (p - val) % p } else { val }
+                }
             };
             f.table.insert(bits, val);
         }
